@@ -211,4 +211,203 @@ theorem parseHeader_ok (d : Bytes) (h : Header) (hh : parseHeader d = .ok h) :
   have := getS_ok_len _ 2 (by decide) _ _ _ h18
   omega
 
+/-- parse_vwsc_data on ANY bytes: every loop counter and the one allocation -/
+theorem vwscWork_bounds (d : Bytes) :
+    (vwscWork d).1.records ≤ d.length / 2 ∧ (vwscWork d).1.copied ≤ d.length ∧ (vwscWork d).1.deltas ≤ d.length ∧
+    (vwscWork d).1.parses ≤ (vwscWork d).1.records ∧ (vwscWork d).1.sprites ≤ (vwscWork d).1.parses * (vwscWork d).2.2 ∧
+    (vwscWork d).2.1 ≤ 24 * (vwscWork d).2.2 ∧ (vwscWork d).2.2 ≤ 32767 := by
+  unfold vwscWork
+  split
+  · simp
+  · rename_i h hh
+    obtain ⟨hfs, hnn, hcc, hlen⟩ := parseHeader_ok d h hh
+    have hN : (h.channelCount * h.frameSize).toNat = h.channelCount.toNat * h.lay.frameSize ∧ 0 ≤ h.channelCount := by
+      rw [hfs] at hnn ⊢
+      cases hl : h.lay <;> simp [hl, Layout.frameSize] at hnn ⊢ <;> omega
+    have hdiv : h.channelCount.toNat * h.lay.frameSize / h.lay.frameSize = h.channelCount.toNat :=
+      Nat.mul_div_cancel _ h.lay.frameSize_pos
+    have := recWork_bounds h.lay d (h.channelCount.toNat * h.lay.frameSize) _ (zeros (h.channelCount * h.frameSize).toNat) 20 false {} rfl
+      (by simp [zeros, hN.1])
+    simp only [hdiv] at this
+    obtain ⟨b1, b2, b3, b4, b5⟩ := this
+    have hfs24 : h.lay.frameSize ≤ 24 := by cases h.lay <;> decide
+    have hmul : h.channelCount.toNat * h.lay.frameSize ≤ 24 * h.channelCount.toNat := by
+      rw [Nat.mul_comm]; exact Nat.mul_le_mul_right _ hfs24
+    simp at b1 b2 b3 b4 b5
+    show (recWork h.lay d (zeros (h.channelCount * h.frameSize).toNat) 20 false {}).records ≤ d.length / 2 ∧ _
+    simp only []
+    refine ⟨by omega, by omega, by omega, by omega, b5, by rw [hN.1]; exact hmul, by omega⟩
+
+theorem spriteLoop_length_le (lay : Layout) (rest : Bytes) (l : List (Option Sprite)) (h : spriteLoop lay rest = .ok l) :
+    l.length * lay.frameSize ≤ rest.length + (lay.frameSize - 1) := by
+  fun_induction spriteLoop lay rest generalizing l with
+  | case1 => cases h; simp
+  | case2 b bs e he => simp [he] at h
+  | case3 b bs s e hs he ih => simp [hs, he] at h
+  | case4 b bs s ss hs hss ih =>
+    simp only [hs, hss, Except.ok.injEq] at h
+    subst h
+    have hp := lay.frameSize_pos
+    have := ih ss hss
+    simp only [List.length_cons]
+    rw [Nat.add_mul, Nat.one_mul]
+    by_cases hsmall : (b :: bs).length ≤ lay.frameSize
+    · rw [List.drop_of_length_le hsmall] at hss
+      rw [spriteLoop.eq_def] at hss
+      cases hss
+      simp; omega
+    · simp only [List.length_drop, List.length_cons] at this hsmall ⊢
+      omega
+
+theorem parseChannels_score_le (lay : Layout) (buf : Bytes) (f : Frame) (h : parseChannels lay buf = .ok f) :
+    f.score.length ≤ buf.length / lay.frameSize := by
+  have hp := lay.frameSize_pos
+  unfold parseChannels at h
+  simp only [bind, Except.bind, pure, Except.pure] at h
+  split at h
+  · cases h
+  · split at h
+    · cases h
+    · split at h
+      · cases h
+      · rename_i ss hss
+        cases h
+        simp only
+        by_cases hsmall : buf.length ≤ lay.frameSize + lay.frameSize
+        · rw [List.drop_of_length_le hsmall, spriteLoop.eq_def] at hss
+          cases hss; exact Nat.zero_le _
+        · have := spriteLoop_length_le lay _ ss hss
+          rw [Nat.le_div_iff_mul_le hp]
+          simp only [List.length_drop] at this
+          omega
+
+/-- every decoded frame has at most the declared number of channels -/
+theorem parseVwsc_channels_le (d : Bytes) (frames : List Frame) (h : parseVwsc d = .ok frames) :
+    Drx.Score.Spec.channelsOf frames ≤ (vwscWork d).2.2 := by
+  unfold parseVwsc at h
+  unfold vwscWork
+  simp only [bind, Except.bind] at h
+  cases hh : parseHeader d with
+  | error e => simp [hh] at h
+  | ok hd =>
+    simp only [hh] at h ⊢
+    obtain ⟨hfs, hnn, hcc, hlen⟩ := parseHeader_ok d hd hh
+    have hN : (hd.channelCount * hd.frameSize).toNat = hd.channelCount.toNat * hd.lay.frameSize := by
+      rw [hfs] at hnn ⊢
+      cases hl : hd.lay <;> simp [hl, Layout.frameSize] at hnn ⊢ <;> omega
+    cases frames with
+    | nil => simp [Drx.Score.Spec.channelsOf]
+    | cons f0 fs =>
+      have key := recLoop_frames hd.lay d (zeros (hd.channelCount * hd.frameSize).toNat).length _ _ 20 none (f0 :: fs) rfl rfl
+        (by intro f hf; cases hf) h
+      obtain ⟨b, hb, hp⟩ := key f0 (by simp)
+      have := parseChannels_score_le hd.lay b f0 hp
+      rw [hb] at this
+      simp only [zeros, List.length_replicate, hN, Nat.mul_div_cancel _ hd.lay.frameSize_pos] at this
+      simpa [Drx.Score.Spec.channelsOf] using this
+
+theorem pySlice_length_le (l : List α) (a b : Int) : (pySlice l a b).length ≤ l.length := by
+  unfold pySlice
+  simp only [List.length_take, List.length_drop]
+  omega
+
+theorem locateData_length_le (fdata data : Bytes) (h : locateData fdata = .ok data) : data.length ≤ fdata.length := by
+  unfold locateData at h
+  simp only [bind, Except.bind, pure, Except.pure, throw, throwThe, MonadExceptOf.throw] at h
+  repeat' split at h
+  all_goals first | (cases h; done) | (cases h; exact pySlice_length_le _ _ _)
+
+theorem parseVwscFile_eq_locate (fdata : Bytes) : parseVwscFile fdata = (locateData fdata).bind parseVwsc := by
+  unfold parseVwscFile locateData
+  simp only [bind, Except.bind, pure, Except.pure, throw, throwThe, MonadExceptOf.throw]
+  repeat' split
+  all_goals first | rfl | simp_all
+
 end Drx.Vwsc
+
+namespace Drx.Score
+open Drx Drx.Vwsc Drx.Score.Spec
+
+theorem stepFrameRounds_le (sps : List (List Span)) (cells : List (Option Sprite)) : stepFrameRounds sps cells ≤ sps.length := by
+  induction sps generalizing cells with
+  | nil => simp [stepFrameRounds]
+  | cons sp sps ih =>
+    cases cells with
+    | nil => simp [stepFrameRounds]
+    | cons c cs => have := ih cs; simp [stepFrameRounds]; omega
+
+theorem stepFrame_length (i j : Nat) (sps : List (List Span)) (cells : List (Option Sprite)) (out : List (List Span))
+    (h : stepFrame i j sps cells = .ok out) : out.length = sps.length := by
+  induction sps generalizing j cells out with
+  | nil => simp [stepFrame] at h; subst h; rfl
+  | cons sp sps ih =>
+    cases cells with
+    | nil => simp [stepFrame] at h
+    | cons c cs =>
+      simp only [stepFrame] at h
+      split at h
+      · cases h
+      · rename_i rest hr
+        cases h
+        simp [ih _ _ _ hr]
+
+theorem pass2Rounds_le (i : Nat) (frames : List Frame) (sps : List (List Span)) :
+    (pass2Rounds i frames sps).1 ≤ frames.length ∧ (pass2Rounds i frames sps).2 ≤ frames.length * sps.length := by
+  induction frames generalizing i sps with
+  | nil => simp [pass2Rounds]
+  | cons f fs ih =>
+    have hr := stepFrameRounds_le sps f.score
+    simp only [pass2Rounds, List.length_cons]
+    split
+    · simp only [Nat.add_mul, Nat.one_mul]
+      have : 0 ≤ fs.length * sps.length := Nat.zero_le _
+      omega
+    · rename_i sps' hs
+      have hl := stepFrame_length _ _ _ _ _ hs
+      have := ih (i + 1) sps'
+      rw [hl] at this
+      simp only [Nat.add_mul, Nat.one_mul]
+      omega
+
+/-- vwsc_to_score on ANY frame table: its four loops make at most `channels + frames·(2 + channels)` rounds -/
+theorem toScoreWork_bounds (frames : List Frame) :
+    (toScoreWork frames).init = channelsOf frames ∧ (toScoreWork frames).pass1 = frames.length ∧
+    (toScoreWork frames).pass2 ≤ frames.length ∧ (toScoreWork frames).cells ≤ frames.length * channelsOf frames := by
+  have h := pass2Rounds_le 0 frames (List.replicate (channelsOf frames) [])
+  simp only [List.length_replicate] at h
+  cases frames with
+  | nil => simp [toScoreWork, channelsOf, pass2Rounds]
+  | cons f fs => exact ⟨rfl, rfl, h.1, h.2⟩
+
+/-- **the whole score pipeline on ANY bytes**: all loop rounds of `vwsc_to_score(parse_vwsc_file_data(d))` together are bounded by
+    a fixed multiple of the input length plus (frames ≤ |d|/2) × (declared channels) -/
+theorem pipelineRounds_le (fdata : Bytes) :
+    pipelineRounds fdata ≤ 4 * fdata.length + (2 * fdata.length + 1) * declaredChannels fdata := by
+  unfold pipelineRounds declaredChannels
+  cases hl : locateData fdata with
+  | error e => simp
+  | ok data =>
+    simp only
+    have hL := locateData_length_le fdata data hl
+    obtain ⟨b1, b2, b3, b4, b5, _, _⟩ := vwscWork_bounds data
+    generalize hcc : (vwscWork data).2.2 = cc at *
+    generalize hW : (vwscWork data).1 = W at *
+    have hP : W.parses * cc ≤ (data.length / 2) * cc := Nat.mul_le_mul_right _ (by omega)
+    have hx : 3 * ((data.length / 2) * cc) ≤ (2 * fdata.length) * cc := by
+      rw [← Nat.mul_assoc]; exact Nat.mul_le_mul_right _ (by omega)
+    rw [Nat.add_mul, Nat.one_mul]
+    cases hp : parseVwsc data with
+    | error e => simp only; omega
+    | ok frames =>
+      simp only
+      have hn : frames.length ≤ data.length / 2 := by
+        have e1 := parseVwscSteps_records_eq data frames hp
+        have e2 := parseVwscSteps_records_le data
+        omega
+      have hch : channelsOf frames ≤ cc := by rw [← hcc]; exact parseVwsc_channels_le data frames hp
+      obtain ⟨s1, s2, s3, s4⟩ := toScoreWork_bounds frames
+      have hcells : frames.length * channelsOf frames ≤ (data.length / 2) * cc := Nat.mul_le_mul hn hch
+      simp only [ScoreWork.lineHits]
+      omega
+
+end Drx.Score
